@@ -18,6 +18,8 @@ ENVS = [{'LANG': 'C', 'LC_ALL': 'C'}, {'LANG': 'tr_TR.UTF-8', 'LC_ALL': 'tr_TR.U
         {'COLUMNS': '1000', 'LINES': '5', 'NO_COLOR': '1', 'USER': 'nobody', 'TMPDIR': '/nonexistent'},
         # variables whose names read as hexadecimal digits (a value written $CC is a number, never a variable reference)
         {'CC': 'gcc', 'AB': '$10', 'FACE': '7', 'DEAD': '0x11', 'A1': '99'},
+        # interpreter switches: what is assembled does not depend on whether the interpreter keeps assert statements and docstrings
+        {'PYTHONOPTIMIZE': '1'}, {'PYTHONOPTIMIZE': '2', 'PYTHONDEVMODE': '1'}, {'PYTHONWARNINGS': 'error::UserWarning'},
         # two home directories inside the scratch directory (they hold decoy copies in the "~" cases)
         {'HOME': '{SCRATCH}/home1', 'USERPROFILE': '{SCRATCH}/home1'}, {'HOME': '{SCRATCH}/home2', 'XDG_CONFIG_HOME': '{SCRATCH}/home2'}]
 FORMATS = c16.FORMATS
@@ -49,7 +51,7 @@ class C15(core.Check):
                    'absolute scratch-directory paths printed by the listing are normalised before comparison')
     chunk = 2500
     crosscheck_every = {'quick': 200, 'thorough': 200}
-    required_buckets = {b: 3 for b in ['prog:overlapping-vocabulary', 'prog:register-name-beginning-with-another-register', 'prog:command-line-symbol-given-twice', 'var:output-file-already-there', 'prog:tilde-directory', 'prog:configured-zone-name-given-twice', 'var:hashseed', 'var:env', 'var:cwd', 'var:include-order', 'var:include-duplicate',
+    required_buckets = {b: 3 for b in ['prog:overlapping-vocabulary', 'prog:register-name-beginning-with-another-register', 'prog:command-line-symbol-given-twice', 'var:output-file-already-there', 'prog:tilde-directory', 'prog:configured-zone-name-given-twice', 'prog:general-settings', 'var:hashseed', 'var:env', 'var:cwd', 'var:include-order', 'var:include-duplicate',
                                        'var:include-symlink', 'prog:generated-isa', 'prog:multi-file', 'prog:example',
                                        'include-dirs>=3', 'ambiguous-include-name']}
 
@@ -229,6 +231,17 @@ class C15(core.Check):
             for fmt_ in ('json', 'yaml'):
                 fn, text = isamod.render_isa(isa, fmt_)
                 yield self.build_runs({fn: text, 'p.asm': src_z}, 'p.asm', fn, ['.'], {'prog:configured-zone-name-given-twice'})
+        # settings of the configuration's general section that the programs below depend on (string terminator, embedded
+        # strings, origin, byte order): taken from the file in every run
+        for k, (term, endian, origin) in enumerate([(0x24, 'little', 0x20), (10, 'big', None), (0xFF, 'little', None)]):
+            isa = gen_prog.layout_isa(16, origin=origin) if origin is not None else gen_prog.layout_isa(16)
+            isa['general']['cstr_terminator'] = term
+            isa['general']['allow_embedded_strings'] = True
+            isa['general']['endian'] = endian
+            src_g = 'nop\n.cstr "Hi"\n.byte 1\n.asciiz "there"\n"bare"\n.2byte $1234, after\nafter:\n.4byte $A1B2C3D4\n.cstr ""\n.byte 300, 0 - 1\n.2byte $12345\n.fill 2, $1FF\n'
+            for fmt_ in ('json', 'yaml'):
+                fn, text = isamod.render_isa(isa, fmt_)
+                yield self.build_runs({fn: text, 'p.asm': src_g}, 'p.asm', fn, ['.'], {'prog:general-settings'})
         # a search directory whose name begins with "~" is that directory, whatever HOME says
         for k, incdir in enumerate(['~/lib', '~lib', '~']):
             isa = gen_prog.layout_isa(16)
